@@ -657,14 +657,33 @@ def dettest(prop, tier, seed, workers, n):
             runs.append(res)
         finally:
             pool.close()
-    bad = 0
+    # replay form: the recorded explicit schedule (spec) executed alone in a brand-new interpreter must give
+    # the digest of the seed-driven run inside a warm worker (what replay files rely on)
+    nrep = min(len(sel), int(os.environ.get("VERIF_DETTEST_REPLAYS", "8")))
+    step = max(1, len(sel) // max(1, nrep))
+    rep_idx = list(range(0, len(sel), step))[:nrep]
+    rep_bad = 0
+    pool = Pool(0)
+    try:
+        for i in rep_idx:
+            sp = runs[0][i].get("spec")
+            if sp is None:
+                continue
+            r = pool.fresh_run({"prop": prop, "mode": "spec", "spec": sp}, timeout=timeout * 3, hashseed=sel[i].get("hashseed", 0))
+            if r.get("digest") != runs[0][i].get("digest"):
+                rep_bad += 1
+                print("REPLAY-DIFFERS", {k: v for k, v in sel[i].items() if k != "spec"}, runs[0][i].get("digest"), r.get("digest"), r.get("status"), str(r.get("error", ""))[-300:])
+    finally:
+        pool.close()
+    print("dettest %s: %d/%d recorded schedules give the same digest when replayed alone in a fresh interpreter" % (prop, len(rep_idx) - rep_bad, len(rep_idx)))
+    bad = rep_bad
     for i, j in enumerate(sel):
         ds = [r[i].get("digest") for r in runs]
         st = [r[i].get("status") for r in runs]
         if len(set(ds)) != 1 or any(x not in ("ok", "fail") for x in st):
             bad += 1
             print("NONDETERMINISTIC", {k: v for k, v in j.items() if k != "spec"}, ds, st, [str(r[i].get("error", ""))[-300:] for r in runs])
-    print("dettest %s: %d/%d jobs identical across 3 runs (different worker counts, job order and worker histories; hash seed pinned per job)" % (prop, len(sel) - bad, len(sel)))
+    print("dettest %s: %d/%d jobs identical across 3 runs (different worker counts, job order and worker histories; hash seed pinned per job)" % (prop, len(sel) - (bad - rep_bad), len(sel)))
     return 0 if bad == 0 else 2
 
 
